@@ -63,6 +63,35 @@ func genCap(t *rapid.T) Spec {
 		s.R2 = -1
 		s.Scale = 1e-9
 		return s
+	case 3, 4:
+		// centre just outside a cell edge, radius around the distance to the edge:
+		// the cap enters the cell through the edge interior only (or just misses it)
+		id := gen.CellID(t, "cap.pc")
+		if id.Level() > 24 {
+			id = id.Parent(24)
+		}
+		cell := s2.CellFromCellID(id)
+		k := rapid.IntRange(0, 3).Draw(t, "cap.pk")
+		f := rapid.Float64Range(0.15, 0.85).Draw(t, "cap.pf")
+		out := -rapid.Float64Range(0.01, 0.4).Draw(t, "cap.po") // fraction of the cell size beyond the edge
+		var q, e s2.Point
+		switch k {
+		case 0:
+			q, e = cellPoint(cell, f, out), cellPoint(cell, f, 0)
+		case 1:
+			q, e = cellPoint(cell, 1-out, f), cellPoint(cell, 1, f)
+		case 2:
+			q, e = cellPoint(cell, f, 1-out), cellPoint(cell, f, 1)
+		default:
+			q, e = cellPoint(cell, out, f), cellPoint(cell, 0, f)
+		}
+		q = gen.Fix(q, c)
+		d := float64(q.Distance(e))
+		mul := rapid.SampledFrom([]float64{1.3, 1.05, 1.001, 1 + 1e-6, 1 - 1e-6, 0.999, 0.9}).Draw(t, "cap.pm")
+		ang = d * mul
+		s.C = gen.FromPt(q)
+		s.Family = "edge-poke"
+		s.Hint = uint64(id)
 	case 5, 6, 7:
 		// radius equal to the distance to a cell vertex / edge of a nearby cell (tangent configurations)
 		lvl := rapid.IntRange(0, 24).Draw(t, "cap.tl")
@@ -86,6 +115,7 @@ func genCap(t *rapid.T) Spec {
 		}
 		s.R2 = r2
 		s.Scale = math.Max(1e-9, 2*math.Asin(math.Min(1, 0.5*math.Sqrt(r2))))
+		s.Hint = uint64(cell.ID().EdgeNeighbors()[k])
 		return s
 	default:
 		s.Family, ang = "general", logUniform(t, "cap.lr", 1e-7, math.Pi)
@@ -107,7 +137,7 @@ func genRect(t *rapid.T) Spec {
 	lat0, lat1 := clat-h/2, clat+h/2
 	lng0, lng1 := clng-w/2, clng+w/2
 	s.Family = "box"
-	switch rapid.IntRange(0, 11).Draw(t, "rect.fam") {
+	switch rapid.IntRange(0, 14).Draw(t, "rect.fam") {
 	case 0:
 		s.Family = "north-cap"
 		lat1, lng0, lng1 = math.Pi/2, -math.Pi, math.Pi
@@ -140,6 +170,36 @@ func genRect(t *rapid.T) Spec {
 	case 8:
 		s.Family = "parallel-segment"
 		lat0, lat1 = clat, clat
+	case 10, 11:
+		// the lower (in |lat|) parallel edge cuts the poleward bulge of a cell edge:
+		// the cell on the equator side meets the rectangle only between its vertices
+		// (only face cells have an edge that spans the apex of its great circle)
+		id := s2.CellIDFromFace(rapid.IntRange(0, 5).Draw(t, "rect.bc"))
+		cell := s2.CellFromCellID(id)
+		k := rapid.IntRange(0, 3).Draw(t, "rect.bk")
+		a, b := cell.Vertex(k), cell.Vertex((k+1)&3)
+		m := s2.Point{Vector: a.Add(b.Vector).Normalize()}
+		la, _ := latLng(a)
+		lb, _ := latLng(b)
+		lm, _ := latLng(m)
+		_, lga := latLng(a)
+		_, lgb := latLng(b)
+		end := math.Max(math.Abs(la), math.Abs(lb))
+		if la*lb > 0 && math.Abs(lm) > end+1e-9 && math.Abs(lm) < 1.5 {
+			f := rapid.SampledFrom([]float64{0.01, 0.1, 0.5, 0.9, 0.99}).Draw(t, "rect.bf")
+			cut := end + f*(math.Abs(lm)-end)
+			if lm > 0 {
+				lat0, lat1 = cut, math.Min(math.Pi/2, cut+h)
+			} else {
+				lat0, lat1 = math.Max(-math.Pi/2, -cut-h), -cut
+			}
+			span := s1.IntervalFromPointPair(lga, lgb)
+			ctr := span.Center()
+			ww := span.Length() * rapid.SampledFrom([]float64{0.05, 0.3, 0.9, 1.5}).Draw(t, "rect.bw")
+			lng0, lng1 = ctr-ww/2, ctr+ww/2
+			s.Family = "edge-bulge"
+			s.Hint = uint64(id)
+		}
 	case 9:
 		s.Family = "wide" // wider than 180 degrees
 		w = rapid.Float64Range(math.Pi, 2*math.Pi-1e-3).Draw(t, "rect.wide")
@@ -278,11 +338,11 @@ func maxDist(c s2.Point, rings [][]gen.P) float64 {
 
 func genLoop(t *rapid.T) Spec {
 	s := Spec{Kind: "loop"}
-	switch rapid.IntRange(0, 39).Draw(t, "loop.sp") {
-	case 0:
+	switch rapid.IntRange(0, 59).Draw(t, "loop.sp") {
+	case 30:
 		s.Full, s.Family, s.Scale = true, "full", math.Pi
 		return s
-	case 1:
+	case 31:
 		s.Empty, s.Family, s.Scale = true, "empty", 1e-9
 		return s
 	}
@@ -308,12 +368,46 @@ func genLoop(t *rapid.T) Spec {
 
 func genPolygon(t *rapid.T) Spec {
 	s := Spec{Kind: "polygon"}
-	switch rapid.IntRange(0, 39).Draw(t, "pg.sp") {
-	case 0:
+	switch rapid.IntRange(0, 59).Draw(t, "pg.sp") {
+	case 30:
 		s.Full, s.Family, s.Scale = true, "full", math.Pi
 		return s
-	case 1:
+	case 31:
 		s.Empty, s.Family, s.Scale = true, "empty", 1e-9
+		return s
+	}
+	if rapid.IntRange(0, 3).Draw(t, "pg.multi") == 0 {
+		// several disjoint shells: lattice rectangles on one face grid, at least
+		// one grid cell apart (integer truth), some with a nested hole
+		face := rapid.IntRange(0, 5).Draw(t, "pg.face")
+		level := rapid.IntRange(2, 5).Draw(t, "pg.level")
+		var rects []gen.LatticeRect
+		for i := 0; i < 4; i++ {
+			r := gen.DrawLatticeRect(t, fmt.Sprintf("pg.r%d", i), face, level, 24)
+			ok := true
+			for _, o := range rects {
+				if r.I0 <= o.I1 && o.I0 <= r.I1 && r.J0 <= o.J1 && o.J0 <= r.J1 {
+					ok = false
+				}
+			}
+			if ok {
+				rects = append(rects, r)
+			}
+		}
+		for i, r := range rects {
+			s.Rings = append(s.Rings, r.Vertices())
+			// a hole strictly inside (needs a 3x3 rectangle at least)
+			if r.I1-r.I0 >= 3 && r.J1-r.J0 >= 3 && rapid.Bool().Draw(t, fmt.Sprintf("pg.h%d", i)) {
+				h := gen.LatticeRect{Face: face, Level: level, I0: r.I0 + 1, J0: r.J0 + 1, I1: r.I1 - 1, J1: r.J1 - 1}
+				s.Rings = append(s.Rings, h.Vertices())
+			}
+		}
+		// known point: centre of the corner grid cell of the first rectangle (in
+		// the shell, outside its hole, which starts one cell further in)
+		s.Known = gen.FromPt(rects[0].CenterOfCell(rects[0].I0, rects[0].J0))
+		s.KnownIn = true
+		s.Family = fmt.Sprintf("lattice-shells=%d", len(rects))
+		s.Scale = math.Max(1e-9, maxDist(s.Known.Pt(), s.Rings))
 		return s
 	}
 	maxN := 24
@@ -720,8 +814,14 @@ func genPredCase(t *rapid.T) predCase {
 			}
 		}
 	}
-	switch rapid.IntRange(0, 7).Draw(t, "pc.nb") {
-	case 0, 1, 2:
+	useHint := s.Hint != 0 && rapid.Bool().Draw(t, "pc.hint")
+	if useHint {
+		id = s2.CellID(s.Hint)
+		guided = 0
+	}
+	switch nb := rapid.IntRange(0, 7).Draw(t, "pc.nb"); {
+	case useHint:
+	case nb <= 2:
 		// the neighbour across the edge nearest to the anchor: the region's
 		// boundary feature then lies next to a cell edge, from outside
 		if u, v, ok := faceUV(id.Face(), a.Vector); ok {
@@ -740,9 +840,9 @@ func genPredCase(t *rapid.T) predCase {
 			}
 			id = id.EdgeNeighbors()[k]
 		}
-	case 3:
+	case nb == 3:
 		id = id.EdgeNeighbors()[rapid.IntRange(0, 3).Draw(t, "pc.nbk")]
-	case 4:
+	case nb == 4:
 		if id.Level() > 0 {
 			vn := id.VertexNeighbors(id.Level() - 1)
 			id = vn[rapid.IntRange(0, len(vn)-1).Draw(t, "pc.vnk")]
